@@ -169,34 +169,43 @@ def _yield_loop_shape(body):
 
 
 def _search_loop_shape(body):
-    """`for x in seq: if cond(x): raise ...` - a universal check"""
-    if len(body) != 1 or not isinstance(body[0], ast.If) or body[0].orelse:
+    """`for x in seq: if cond(x): raise ...` (one or several such ifs) - a universal check"""
+    if not body:
         return False
-    b = body[0].body
-    return len(b) >= 1 and isinstance(b[-1], ast.Raise) and all(isinstance(x, (ast.Raise, ast.Expr)) for x in b)
+    for st in body:
+        if not isinstance(st, ast.If) or st.orelse:
+            return False
+        b = st.body
+        if not (len(b) >= 1 and isinstance(b[-1], ast.Raise) and all(isinstance(x, (ast.Raise, ast.Expr)) for x in b)):
+            return False
+    return True
 
 
 def _exec_search_loop(interp, node, seq, env):
     """either some item satisfies the condition (the loop raises at the first such item) or none
     does: decided once, with a skolem witness / an assumed universal fact"""
     c = cur()
-    ifn = node.body[0]
+    ifs = list(node.body)
     snapshot = dict(env.vars)
 
     def cond_at(i):
         e2 = _child_env(interp, env)
         e2.vars.update(snapshot)
         interp.assign(node.target, seq.elem(i), e2)
-        t = interp.truth_term(interp.eval(ifn.test, e2))
-        return T.lift(t)
+        ts = [T.lift(interp.truth_term(interp.eval(ifn.test, e2))) for ifn in ifs]
+        return T.or_(*ts)
 
     some = T.fresh("some_item_fails", T.BOOL)
     w = T.fresh("w", T.INT)
     c.axiom(T.implies(some, T.and_(T.le(0, w), T.lt(w, seq.n), cond_at(w))))
     if c.decide(some, f"loop@{node.lineno}: some item satisfies the raising condition"):
         interp.assign(node.target, seq.elem(w), env)
-        interp.exec_block(ifn.body, env)
-        return
+        for ifn in ifs:  # the first test that holds at the witness raises
+            if interp.truth(interp.eval(ifn.test, env), why=f"if@{ifn.lineno}"):
+                interp.exec_block(ifn.body, env)
+        from .ctx import Infeasible
+
+        raise Infeasible()  # the assumed disjunction guarantees that one of them fired
     c.assume_forall(seq.n, lambda i: T.not_(cond_at(i)))
     try:
         interp.assign(node.target, seq.elem(T.sub(seq.n, 1)), env)
